@@ -7,7 +7,7 @@ from props import util
 
 THEOREMS = ['C16_scaled_fixed_equiv', 'C16_structured_flatten_equiv', 'C16_external_rows']
 CFG = {'p_coarse': 0.0, 'p_periodic': 0.0, 'T': (3, 8), 'n_assets': (1, 3), 'nodes': (2, 3), 'p_window': 0.2, 'p_market': 0.95, 'p_wacc': 0.3,
-       'p_window_scaled_base': 0.3, 'p_inflow': 0.4,
+       'p_window_scaled_base': 0.3, 'p_inflow': 0.4, 'p_struct_inside': 0.3,
        'kinds': {'ScaledAsset': 4, 'StructuredAsset': 4, 'SimpleContract': 1, 'Transport': 1, 'Storage': 1}}
 
 
@@ -78,7 +78,15 @@ def flattened(sp):
     """every StructuredAsset replaced by the assets it wraps"""
     v = copy.deepcopy(sp)
     out = []
+    tz = v['grid'].get('tz')
     for a in v['assets']:
+        if a['kind'] == 'StructuredAsset':
+            for b in a['assets']:
+                # joint life time: where both the structure and the wrapped asset name a start (end), the later (earlier) one counts
+                if a.get('start') and b.get('start') and M.inst(a['start'], tz) > M.inst(b['start'], tz):
+                    b['start'] = a['start']
+                if a.get('end') and b.get('end') and M.inst(a['end'], tz) < M.inst(b['end'], tz):
+                    b['end'] = a['end']
         out.extend(a['assets'] if a['kind'] == 'StructuredAsset' else [a])
     v['assets'] = out
     v['id'] = sp['id'] + '+flat'
